@@ -288,7 +288,7 @@ Definition index_locale (g : group) : unit_out :=
 (** `index_translations::<N, I>(&[&str; N])`: the table must have exactly N elements (type
     check of the generated code), the result is element I (out of bounds: compile error or panic) *)
 Definition read_index (table : list str) (n i : N) : option str :=
-  if (N.of_nat (length table) =? n) then nth_error table (N.to_nat i) else None.
+  if (N.of_nat (length table) =? n) && (i <? n) then nth_error table (N.to_nat i) else None.
 (** `StringArray::cast` for `[Box<str>; N]`: `try_into().unwrap()` *)
 Definition cast_ok (received : list str) (n : N) : bool := N.of_nat (length received) =? n.
 
